@@ -319,9 +319,20 @@ func c06GenerateInherits(c *Ctx, r *Report, rule string) {
 	}
 	r.fn("ZoneParser.generate")
 	n := 0
+	// the fall-back sites: a call of SetDefaultTTL, or (the setter written out) a store into a parser's defttl of a
+	// TTL state that is not the parent's
+	var sites []ssa.Instruction
 	for _, ci := range callsIn(fn, "(ZoneParser).SetDefaultTTL") {
+		sites = append(sites, ci.(ssa.Instruction))
+	}
+	for _, st := range storesToField(fn, "ZoneParser", "defttl") {
+		if !anyIn(sliceOf(st.Val), readsField("ZoneParser", "defttl")) {
+			sites = append(sites, st)
+		}
+	}
+	for _, ci := range sites {
 		n++
-		blk := ci.(ssa.Instruction).Block()
+		blk := ci.Block()
 		// every way into this block is the nil edge of a test of zp.defttl: no other condition may send a parser that
 		// has a TTL state to the default
 		okAll := len(blk.Preds) > 0
